@@ -163,10 +163,26 @@ def check(ctx, run):
             raise AnalysisError(f"anchor vanished: BaseDerivative.{name}")
         bad = [ast.unparse(n)[:60] for n in ast.walk(fi.node) if isinstance(n, ast.Call) and ast.unparse(n.func).split(".")[-1] in ("sorted", "reversed", "sort", "reverse", "move_to_end", "popitem", "insert", "shuffle")]
         bad += [ast.unparse(n)[:60] for n in ast.walk(fi.node) if isinstance(n, ast.Subscript) and isinstance(n.slice, ast.Slice) and n.slice.step is not None]
+        if name != "add_clause":
+            # the iterators must hand out EVERY registered clause: inside their loops nothing may skip an element (continue / break /
+            # return, a yield under a condition) and the iterated collection must not be filtered (comprehension with `if`, filter(), set())
+            for loop in [n for n in ast.walk(fi.node) if isinstance(n, (ast.For, ast.While))]:
+                for n in ast.walk(loop):
+                    if isinstance(n, (ast.Continue, ast.Break, ast.Return)):
+                        bad.append(f"{type(n).__name__.lower()} inside the clause loop (line {n.lineno})")
+                    if isinstance(n, ast.If) and any(isinstance(y, (ast.Yield, ast.YieldFrom)) for y in ast.walk(n)):
+                        bad.append(f"conditional yield: if {ast.unparse(n.test)[:50]}")
+            for n in ast.walk(fi.node):
+                if isinstance(n, (ast.ListComp, ast.GeneratorExp, ast.SetComp, ast.DictComp)) and any(g.ifs for g in n.generators):
+                    bad.append(f"filtered comprehension {ast.unparse(n)[:50]}")
+                if isinstance(n, ast.Call) and ast.unparse(n.func).split(".")[-1] in ("filter", "set", "frozenset", "unique", "fromkeys"):
+                    bad.append(f"de-duplicating / filtering call {ast.unparse(n)[:50]}")
+            if not any(isinstance(y, (ast.Yield, ast.YieldFrom, ast.Return)) for y in ast.walk(fi.node)):
+                bad.append("yields nothing")
         ok = not bad
-        run.oblige("C12.R3", f"BaseDerivative.{name} keeps insertion order", ok, "; ".join(bad))
+        run.oblige("C12.R3", f"BaseDerivative.{name} keeps insertion order and hands out every clause", ok, "; ".join(bad))
         if not ok:
-            run.fail(Finding("C12.R3", fi.qualname, "; ".join(bad), "clauses must be applied in registration order", file=str(prog.modules[fi.module].path), line=fi.node.lineno))
+            run.fail(Finding("C12.R3", fi.qualname, "; ".join(bad), "every registered clause must be applied, once per registration, in registration order", file=str(prog.modules[fi.module].path), line=fi.node.lineno))
 
 
 _check_main = check
